@@ -319,7 +319,7 @@ func init() {
 			}
 			if m.floatMode() == "int53" {
 				xi, yi := m.toI53(x), m.toI53(y)
-				return &FloatV{I: m.F.Ite(c, xi.I, yi.I), NaN: m.F.Ite(c, m.nanOf(xi), m.nanOf(yi))}
+				return &FloatV{I: m.F.Ite(c, xi.I, yi.I), NaN: m.F.Ite(c, m.nanOf(xi), m.nanOf(yi)), Frac: m.F.Ite(c, m.fracOf(xi), m.fracOf(yi))}
 			}
 			if x.Bits != nil && y.Bits != nil {
 				return &FloatV{Bits: m.F.Ite(c, x.Bits, y.Bits)}
